@@ -26,9 +26,12 @@ import (
 	"strings"
 	"sync"
 	"sync/atomic"
+	"time"
 
 	"verif/internal/c11"
+	"verif/internal/c11l2"
 	"verif/internal/evid"
+	"verif/internal/l2"
 )
 
 var (
@@ -40,6 +43,7 @@ var (
 	fAfter  = flag.Int("after", -1, "internal: resume after this schedule index")
 	fReplay = flag.String("replay", "", "replay file (or a schedule seed) to re-run many times")
 	fWdMs   = flag.Int("watchdog-ms", 0, "override the 30 s watchdog (development only)")
+	fL2Only = flag.Bool("c11-l2-only", false, "development: run only the client family (package c11l2)")
 )
 
 // schedSeed derives the seed of schedule i from the run seed (splitmix64).
@@ -427,6 +431,20 @@ func replay(r *evid.Run) {
 
 func main() {
 	r := evid.New("C11", "exploration")
+	// Network-simulation part (package c11l2): subscriptions through the
+	// complete client's public entry point. One child process per scenario.
+	nL2 := r.Pick(16, 300)
+	l2scen := func(seed int64, k int, res *l2.Result) {
+		p := c11l2.FromSeed(seed, k)
+		res.Name = fmt.Sprintf("c11-l2-%d", k)
+		if p.Fixed != "" {
+			res.Name += "-" + p.Fixed
+		}
+		c11l2.Run(p, res)
+	}
+	if l2.IsChild() {
+		l2.RunScenarios(r, nL2, 300*time.Second, l2scen)
+	}
 	if *fChild {
 		runChild(r.Seed)
 		return
@@ -447,11 +465,23 @@ func main() {
 		"instant. The source serialises 'event k handed over' and 'NotificationsSinceHeight(h) answered' into one order, which fixes every " +
 		"subscription's registration point and hence its reference stream = backlog ++ events handed over afterwards. Fingerprint = family x " +
 		"#subscribers x set of consumer kinds x set of cancel timings x stop timing x event-count bucket. Non-trivial = at least one " +
-		"subscription registered and at least one notification was read by a subscriber.")
+		"subscription registered and at least one notification was read by a subscriber. " +
+		"CLIENT family (16 / 300 scenarios, one child process each, package c11l2): the complete real ChainService against scripted wire peers; " +
+		"clients register through neutrino.RescanChainSource.Subscribe at seeded moments (idle; while / right after the chain grows; while / right after an " +
+		"ordinary re-organisation; while block headers are ahead of filter headers the peers withhold; right after a re-organisation that removed some or all of " +
+		"the block headers above the filter-header tip, or went through it, BEFORE any further block is connected; while a released filter-header batch of up to " +
+		"160 (or the 1000-header batches of a checkpointed initial sync) is dispatched) with seeded best heights (0, 1, tip, just below the tip, as far below " +
+		"the tip as the last re-organisation removed headers, uniform) and fast / slow / not-yet-reading consumers; some are cancelled. Judged whenever the client " +
+		"reports the honest tip (filter headers released and caught up): each subscriber's stream must replay, from the committed chain up to its best height, to " +
+		"exactly the committed chain up to the filter-header tip (no connected event skipping heights, none not building on what it holds, no disconnected " +
+		"event for a held block below its tip), and must be consecutive connected blocks from best height + 1 followed by a suffix of what the first subscriber " +
+		"(registered before any block was connected) was sent. The first three scenarios are independent of the seed (scenario 0: 40 blocks, 3 withheld " +
+		"block headers replaced by a 4-block branch forking at the filter-header tip, then Subscribe(20/37/36/39/40/1), then release).")
 	r.Assume("Go channel semantics: a receive that reports closed means no later send on that channel can succeed (it would panic, which the parent reports as a crash violation).")
 	r.Assume("The manager calls NotificationsSinceHeight and receives from Notifications() on one goroutine (its handler); the harness source relies on this only to attribute registration points, and parks its emitter during the call so that the attribution is exact.")
 	r.Assume("At most one NewSubscription call per distinct height value is in flight at a time (harness-imposed) so that a NotificationsSinceHeight(h) call can be attributed to its caller.")
 	r.Assume("Interleavings are those the Go scheduler produces under varied GOMAXPROCS, yields and micro-sleeps; they are not enumerated.")
+	r.Assume("Client family: the scripted peers and the generated chains are correct (they are shared with the other network-simulation checks); a connected event for a block a subscriber already holds (backlog overlapping the batch being dispatched) and a disconnected event for a block it never held (block header above the filter-header tip) are replayed as no-ops and only counted, as C19's replay oracle does; a verdict 'never delivered' is given only for a subscriber that is still below the committed tip 30 s after the client AND the first subscriber reached it.")
 
 	failed, held, after := c11.MeasureErrorPath(50)
 	r.Set("observation_error_path", map[string]any{
@@ -465,6 +495,11 @@ func main() {
 	// very short stop-storm schedules (about 1 ms each).
 	ng := r.Pick(400, 20000)
 	n := ng + r.Pick(100000, 1200000)
+	if *fL2Only {
+		l2.RunScenarios(r, nL2, 300*time.Second, l2scen)
+		r.Finish(1)
+		return
+	}
 	W := runtime.NumCPU()
 	if W > 16 {
 		W = 16
@@ -473,12 +508,20 @@ func main() {
 		W = n
 	}
 	a := &agg{r: r, ng: ng, maxima: map[string]int64{}, counters: map[string]int64{}}
+	// The client family mostly waits (peers withholding answers, the
+	// client's retry periods): it runs alongside the schedule workers.
+	l2done := make(chan struct{})
+	go func() {
+		defer close(l2done)
+		l2.RunScenarios(r, nL2, 300*time.Second, l2scen)
+	}()
 	var wg sync.WaitGroup
 	for w := 0; w < W; w++ {
 		wg.Add(1)
 		go a.worker(w, W, n, ng, &wg)
 	}
 	wg.Wait()
+	<-l2done
 	for k, v := range a.counters {
 		r.Count(k, v)
 	}
